@@ -5,6 +5,6 @@ cd "$(dirname "$0")"
 export GOFLAGS=-mod=mod GOPROXY=off GOSUMDB=off GOTOOLCHAIN=local
 export GOCACHE=/verif/.gocache
 mkdir -p bin evidence replays .work
-go build -o bin/verif ./cmd/verif
+./run build
 if [ -x ./setup_extra.sh ]; then ./setup_extra.sh; fi
 echo setup ok
